@@ -98,7 +98,8 @@ HEAD_RE = {'haml': re.compile(r'(?:%([\w:-]+))?((?:[#.][\w-]+)*)'),
 
 
 def is_text_line(body, syntax):
-    return body.endswith(' |') if syntax == 'haml' else body.startswith('|')
+    # (the greedy indentation split may have eaten the padding blanks of an empty HAML text line)
+    return body.endswith('|') if syntax == 'haml' else body.startswith('|')
 
 
 def recover_tree(lines, syntax, indent):
@@ -141,18 +142,31 @@ def check_indent(ast, indent):
             if i >= len(exp):
                 return '%s: unexpected extra line %d %r; output %r' % (where, i + 1, lines[i], out)
             kind, depth, text = exp[i]
-            d, body = split_indent(lines[i], indent)
-            if d != depth:
-                return '%s: line %d %r is indented %d x indent, expected %d (depth of the %s); output %r' % (
-                    where, i + 1, lines[i], d, depth, kind, out)
             if kind == 'element':
+                d, body = split_indent(lines[i], indent)
+                if d != depth:
+                    return '%s: line %d %r is indented %d x indent, expected %d (depth of the element); output %r' % (
+                        where, i + 1, lines[i], d, depth, out)
                 if body.rstrip() != text.rstrip():
                     return '%s: line %d is %r, expected %r; output %r' % (where, i + 1, body, text, out)
             else:
                 # statement: "one line per text line one level deeper"; the syntax's text markers
-                # (`| ` before, ` |` after with padding) are not constrained
-                if body.strip(' |') != text:
-                    return '%s: line %d is %r, expected the text line %r; output %r' % (where, i + 1, body, text, out)
+                # (`| ` before, ` |` after with padding) and blanks at the ends of the line are not
+                # constrained.  The line must start with depth x indent and not with one indent more --
+                # the latter cannot be told (and is not checked) when the indent string is white space and
+                # the written line itself starts with white space (HAML writes the text first: empty /
+                # blank lines and lines starting with a blank or tab).
+                prefix = indent * depth
+                if not lines[i].startswith(prefix):
+                    return '%s: line %d %r does not start with %d x indent (text line %r one level below its element); output %r' % (
+                        where, i + 1, lines[i], depth, text, out)
+                rest = lines[i][len(prefix):]
+                blank_start = syntax == 'haml' and not indent.strip(' \t') and (text.strip(' ') == '' or text[0] in ' \t')
+                if not blank_start and rest.startswith(indent):
+                    return '%s: line %d %r is indented more than %d x indent (text line %r); output %r' % (
+                        where, i + 1, lines[i], depth, text, out)
+                if rest.strip(' |') != text.strip(' '):
+                    return '%s: line %d is %r, expected the text line %r; output %r' % (where, i + 1, rest, text, out)
         tree, err = recover_tree(lines, syntax, indent)
         if err:
             return '%s: %s; output %r' % (where, err, out)
@@ -240,7 +254,7 @@ def check_indent_loose(ast, indent, strict_heads):
 # ----------------------------------------------------------------------------- generators
 def decoration(k, j):
     """k-th way to decorate element j: -> head fields"""
-    k %= 10
+    k %= N_DECORATIONS
     return [
         {},
         {'cls': ['c%d' % j]},
@@ -252,7 +266,18 @@ def decoration(k, j):
         {'text': 'La%d\nLb%d' % (j, j)},
         {'cls': ['c%d' % j], 'text': 'La%d\nLonger b%d\nLc' % (j, j)},
         {'id': 'i%d' % j, 'attrs': [['title', 't%d' % j]], 'text': 'T%d w' % j},
+        # multi-line texts with empty / blank lines.  Every line is a text line and must get a line of its
+        # own: an empty line inside or at the start, several in a row, a line of blanks, a last line of
+        # blanks, lines starting with a blank / tab.  (A text *ending* in a line break is not generated:
+        # whether that starts one more, empty, text line is not fixed by the statement.)
+        {'text': 'La%d\n\nLb%d' % (j, j)},
+        {'cls': ['c%d' % j], 'text': '\nLa%d\nLb%d' % (j, j)},
+        {'text': 'La%d\n  \nLb%d\n\n\nLc' % (j, j)},
+        {'id': 'i%d' % j, 'text': ' La%d\n\n\tLb%d\n ' % (j, j)},
     ][k]
+
+
+N_DECORATIONS = 14
 
 
 def decorate(skel, reps, variant, offset):
@@ -298,7 +323,7 @@ def head_cases():
     """every name kind x every decoration x position in a small tree x every indent"""
     E = G.E
     for name in ['div', 'p', 'ul', 'span', None]:
-        for k in range(10):
+        for k in range(N_DECORATIONS):
             head = dict(decoration(k, 1))
             if name is None and not G.has_attributes(head):
                 continue
@@ -371,7 +396,7 @@ def random_cases(seed, count):
                     deco(it[2])
                     continue
                 j[0] += 1
-                head = dict(decoration(rng.randrange(10), j[0]))
+                head = dict(decoration(rng.randrange(N_DECORATIONS), j[0]))
                 if rng.random() < 0.7:
                     head['name'] = rng.choice(NAMES)
                 elif not G.has_attributes(head):
@@ -401,8 +426,8 @@ def run(tier, seed):
     out.append(c.done())
 
     c = Clause('head-forms', 'B',
-               '5 name kinds (div, p, ul, span, implicit) x 10 decorations (bare, class, id, id+3 classes, attribute, class+attributes, text, '
-               '2-line text, class+3-line text, id+attribute+text) x 10 positions in a small tree x 4 indent strings',
+               '5 name kinds (div, p, ul, span, implicit) x 14 decorations (bare, class, id, id+3 classes, attribute, class+attributes, text, '
+               '2-line text, class+3-line text, id+attribute+text, 4 multi-line texts with empty / blank / blank-started lines) x 10 positions in a small tree x 4 indent strings',
                'complete product as stated', 'a case is (AST, indent string)', exhaustive=True)
     run_parallel(c, 'bounded.c15', 'check_indent', head_cases(), chunk=100)
     out.append(c.done())
